@@ -166,7 +166,10 @@ fn main() {
     let code = if code == 0 && mode == "thorough" && dsv::fuzz::target_of(prop).is_some() && std::env::var("DSV_FUZZ").map_or(true, |v| v != "0") {
         // fixed work per target: the oracles of C14 / C18 / C19 cost about a millisecond per execution under ASan
         let default_runs = match prop {
-            "C14" | "C18" => 400_000u64,
+            "C14" => 400_000u64,
+            // c18_matrix runs all six routines on both representations against BigRational elimination:
+            // about 8 ms per execution under ASan
+            "C18" => 50_000,
             "C19" => 1_000_000,
             _ => 3_000_000,
         };
